@@ -34,6 +34,22 @@ libUTAP.a: \$(OBJS)
 	rm -f \$@; ar rcs \$@ \$(OBJS)
 -include \$(wildcard *.d)
 M
+# Rebuild by content, not by time stamp: a tree restored or copied with old time stamps would otherwise keep stale objects.
+# Every source whose sha256 differs from the one recorded at the last build gets a new time stamp for make: a changed .cpp / .y / .l
+# loses its object (and generated files); a changed header under src/ or include/ invalidates every object.
+( cd "$REPO" && find src include -type f \( -name '*.cpp' -o -name '*.h' -o -name '*.hpp' -o -name '*.y' -o -name '*.l' \) -print0 | sort -z | xargs -0 sha256sum ) > "$OUT/sources.new" 2>/dev/null || true
+if [ -f "$OUT/sources.sha256" ]; then
+  changed=$(diff <(sort "$OUT/sources.sha256") <(sort "$OUT/sources.new") | grep '^[<>]' | awk '{print $3}' | sort -u)
+  for f in $changed; do
+    case "$f" in
+      src/parser.y|src/lexer.l) rm -f "$OUT/parser.cpp" "$OUT/lexer.cc" "$OUT/parser.o" "$OUT/include/parser.hpp" ;;
+      src/*.cpp) rm -f "$OUT/$(basename "$f" .cpp).o" ;;
+      *) rm -f "$OUT"/*.o ;;
+    esac
+  done
+else
+  rm -f "$OUT"/*.o "$OUT/parser.cpp" "$OUT/lexer.cc"
+fi
 # objects of source files that no longer exist must not linger in the archive
 for o in "$OUT"/*.o; do [ -e "$o" ] || continue; b=$(basename "$o" .o); [ "$b" = parser ] && continue; [ -e "$REPO/src/$b.cpp" ] || rm -f "$o"; done
 if ! make -s -C "$OUT" -j16 all >"$OUT/build.log" 2>&1; then
@@ -41,4 +57,5 @@ if ! make -s -C "$OUT" -j16 all >"$OUT/build.log" 2>&1; then
   rm -f "$OUT"/*.d "$OUT"/*.o "$OUT"/libUTAP.a "$OUT"/parser.cpp "$OUT"/lexer.cc "$OUT"/include/parser.hpp
   make -s -C "$OUT" -j16 all >"$OUT/build.log" 2>&1 || { tail -40 "$OUT/build.log" >&2; echo "BUILD-FAILED $FL" >&2; exit 2; }
 fi
+mv -f "$OUT/sources.new" "$OUT/sources.sha256"
 echo "$OUT/libUTAP.a"
